@@ -351,6 +351,28 @@ def run_async(spec, rec: Recorder):
                 done += 1
         rec.count("entropy_draws_logged", 1)
         rec.sample({"mode": "batches of 50 concurrent async protect calls", "calls": done})
+        # the same through a DC: k calls in flight at once on ONE cache that has to go to the DC (seed-key and public-key
+        # replies, with and without a root key id): whatever the calls share on the way (connections, pending requests,
+        # replies), each blob must carry its own nonce / ephemeral key
+        for policy, alg in (("seed", "DH"), ("public", "DH"), ("public", "ECDH_P256"), ("public", "ECDH_P384")):
+            rkid2 = uuid.UUID(int=rng.getrandbits(128))
+            rk2 = online.root_key(rng, rng.choice(common.HASHES), alg)
+            cfg = DCConfig({rkid2: rk2}, rkid2, policy=policy, security="scripted", now=(361, 4, 9))
+            core = DCCore(cfg)
+            kw = dict(server="dc.c19.test", username="u", password="p", auth_protocol="ntlm")
+            sets2 = Sets(rec)
+            with fe.MemoryDC(core).installed():
+                for rnd in range(max(2, spec["n"] // 400)):
+                    shared = dpapi_ng.KeyCache()
+                    k = rng.choice([2, 3, 5, 8])
+
+                    async def dc_batch():
+                        return await asyncio.gather(*[dpapi_ng.async_ncrypt_protect_secret(b"same plaintext", "S-1-5-18", root_key_identifier=rkid2 if rnd % 2 else None, cache=shared, **kw) for _ in range(k)])
+
+                    for b in loop.run_until_complete(asyncio.wait_for(dc_batch(), 120)):
+                        rec.count("protect_calls")
+                        rec.count("concurrent_dc_protect_calls")
+                        sets2.add(b, {rkid2: rk2}, {"kind": "concurrent", "shard": spec["name"], "policy": policy, "alg": alg, "round": rnd, "in_flight": k})
     finally:
         loop.close()
 
